@@ -21,7 +21,7 @@ func init() {
 			"R3: items.Add on the miss path is dominated by the nil edge of the create function's error. R4: the create call is dominated by the not-found edge of items.Get. " +
 			"R5: the expirable wrapper removes and re-creates exactly on the GetExpiresAt().Before(now) edge and returns the value unchanged otherwise. " +
 			"R6: from the found edge of items.Get(k) every path to the return passes items.Remove(k) and then items.Add(k, same value). R7: from the success edge of the create call every path to an exit inserts the value. " +
-			"Equivalent forms are accepted: the callback invoked through a nil-safe invoker method of the callback type; entries and keys handed through local copies or the parameters of a private helper; state kept in flags or in the nil-ness of a variable (path queries carry a valuation); the eviction moved into a private helper that GetOrCreate runs under the guard; the staleness test spelled now.After(expiry) or placed in a predicate helper. " +
+			"Equivalent forms are accepted: the callback invoked through a nil-safe invoker method of the callback type; entries and keys handed through local copies or the parameters of a private helper; state kept in flags or in the nil-ness of a variable (path queries carry a valuation); the eviction moved into a private helper that GetOrCreate runs under the guard; the staleness test spelled now.After(expiry) or placed in a predicate helper; the oldest key obtained as the Key of the first Next() of an iterator freshly opened over the list (what First() is), also through a private head accessor; key and pair assigned at several places (decided per path: both stem from one execution of one Next()/accessor call); key and pair read from the entry parameter of a literal that an iteration helper of the map runs on the list; the mutex, list and tables grouped in a struct the cache holds by value. " +
 			"M1-M8: the ordered map keeps its list consistent (the rules of C10), since eviction order is the list order. R8: the expiry wrapper does not apply its staleness test to the result of GetOrCreate (which may be the value this call created) followed by an unconditional Remove of the key in a separate critical section (open finding). R5 also: the clock the staleness test of the expirable wrapper uses is read before the lookup (the lookup may be the miss that creates the item). M12: the pointer surgery of the list's unlink routine (see C10.R12).",
 		NotDecided: "refinement of a reference LRU over all call sequences; callback accounting as a count.",
 	})
@@ -34,7 +34,7 @@ func init() {
 			"R2: the create call is reached only by the goroutine that registered the in-flight entry; from the registration every path to an exit closes the channel and deletes the entry, in the same critical section as the insert; the in-flight table is written only by registration, by that cleanup and by the constructor. " +
 			"R3: waiting for an in-flight creation and the create call itself run with the lock released, and a waiter goes back to the lookup. " +
 			"R4: every insert on the miss path is followed, before the lock is released, by the capacity test. R5: the delete callback runs under the mutex in the critical section of the removal it reports. " +
-			"Locksets see through private helpers that are only called with the mutex held and through literals run by a withLock-style wrapper; the in-flight table may map a key to the bare channel or to a record holding it (absence tested by comma-ok or, when only non-nil records are stored, by nil). Q1-Q7: the sequential LRU rules of C08 (a concurrent history must be equivalent to a sequential LRU history). M1-M12: the structural rules of the ordered map the cache keeps its recency order in (C10.R1-R12): a list that loses entries evicts the wrong victim and never hands the lost values to the delete callback.",
+			"Locksets see through private helpers that are only called with the mutex held and through literals run by a withLock-style wrapper; the in-flight table may map a key to the bare channel or to a record holding it (absence tested by comma-ok or, when only non-nil records are stored, by nil); the creator may close the channel it reads back from the table under the registered key (the census clauses make that the registered one); a literal run by an iteration helper of another package (which only calls it) runs under the locks held at the helper's call, minus what the literal itself may release. Q1-Q7: the sequential LRU rules of C08 (a concurrent history must be equivalent to a sequential LRU history). M1-M12: the structural rules of the ordered map the cache keeps its recency order in (C10.R1-R12): a list that loses entries evicts the wrong victim and never hands the lost values to the delete callback.",
 		NotDecided: "linearizability of histories; created-versus-deleted balance over schedules.",
 	})
 }
@@ -57,6 +57,12 @@ type lruRoles struct {
 	// to struct) instead of the bare channel; nil for the bare channel
 	inflightChan *types.Var
 	locks        *lockViewH
+	// mutexPath: the receiver-rooted access path of the cache mutex ("recv.lock", "recv.state.lock")
+	mutexPath string
+	// the key and the value field of iterable.MapEntry (y_c08.go)
+	entryKeyF, entryValF *types.Var
+	entryResolved        bool
+	prog                 *ir.Prog
 }
 
 // chanCarrier reports whether t is a channel, or a struct / pointer to struct with exactly one channel field (the
@@ -85,7 +91,7 @@ func chanCarrier(t types.Type) (*types.Var, bool) {
 }
 
 func resolveLRURoles(c *Ctx) *lruRoles {
-	r := &lruRoles{}
+	r := &lruRoles{prog: c.P}
 	r.ecache = c.P.LookupType("container/lru", "ECache")
 	mapT := c.P.LookupType("container/iterable", "Map")
 	if r.ecache == nil || mapT == nil {
@@ -93,11 +99,14 @@ func resolveLRURoles(c *Ctx) *lruRoles {
 	}
 	// the cache mutex: a sync.Mutex, or a sync.RWMutex (its exclusive Lock/Unlock carry the same lockset entry; a shared
 	// RLock does not count as holding it)
-	r.mutex = c.oneField("lru.mutex", r.ecache, func(f *types.Var) bool {
+	// (the lock-protected state may be grouped in a struct the cache holds by value: fieldInStateC)
+	var mutexPath []string
+	r.mutex, mutexPath = c.fieldInStateC("lru.mutex", r.ecache, func(f *types.Var) bool {
 		return ir.IsNamed(f.Type(), "sync", "Mutex") || ir.IsNamed(f.Type(), "sync", "RWMutex")
 	})
-	r.items = c.oneField("lru.items", r.ecache, func(f *types.Var) bool { return namedOf(f.Type()) == mapT })
-	r.inflight = c.oneField("lru.inflight", r.ecache, func(f *types.Var) bool {
+	r.mutexPath = "recv." + strings.Join(mutexPath, ".")
+	r.items, _ = c.fieldInStateC("lru.items", r.ecache, func(f *types.Var) bool { return namedOf(f.Type()) == mapT })
+	r.inflight, _ = c.fieldInStateC("lru.inflight", r.ecache, func(f *types.Var) bool {
 		m, ok := f.Type().Underlying().(*types.Map)
 		if !ok {
 			return false
@@ -106,11 +115,11 @@ func resolveLRURoles(c *Ctx) *lruRoles {
 		return carries
 	})
 	r.inflightChan, _ = chanCarrier(r.inflight.Type().Underlying().(*types.Map).Elem())
-	r.capacity = c.oneField("lru.capacity", r.ecache, func(f *types.Var) bool { return types.Identical(f.Type(), types.Typ[types.Int]) })
+	r.capacity, _ = c.fieldInStateC("lru.capacity", r.ecache, func(f *types.Var) bool { return types.Identical(f.Type(), types.Typ[types.Int]) })
 	createT := c.P.LookupType("container/lru", "CreatePoolElemF")
 	onDelT := c.P.LookupType("container/lru", "OnDeleteElemF")
-	r.create = c.oneField("lru.createF", r.ecache, func(f *types.Var) bool { return namedOf(f.Type()) == createT && createT != nil })
-	r.onDel = c.oneField("lru.onDeleteF", r.ecache, func(f *types.Var) bool { return namedOf(f.Type()) == onDelT && onDelT != nil })
+	r.create, _ = c.fieldInStateC("lru.createF", r.ecache, func(f *types.Var) bool { return namedOf(f.Type()) == createT && createT != nil })
+	r.onDel, _ = c.fieldInStateC("lru.onDeleteF", r.ecache, func(f *types.Var) bool { return namedOf(f.Type()) == onDelT && onDelT != nil })
 	mm := func(name string) *ssa.Function { return c.RequireFn(c.P.MethodOf(mapT, name), "Map."+name) }
 	r.mGet, r.mRemove, r.mAdd, r.mLen, r.mFirst, r.mIt = mm("Get"), mm("Remove"), mm("Add"), mm("Len"), mm("First"), mm("Iterator")
 	em := func(name string) *ssa.Function { return c.RequireFn(c.P.MethodOf(r.ecache, name), "ECache."+name) }
@@ -242,6 +251,10 @@ func (r *lruRoles) gocScope() map[*ssa.Function]bool {
 
 // firstRooted reports whether a key operand is the key items.First() returned, through any chain of copies.
 func (r *lruRoles) firstRooted(key ssa.Value) bool {
+	return r.firstRootedOld(key) || r.firstKeyC(r.prog, key, 0)
+}
+
+func (r *lruRoles) firstRootedOld(key ssa.Value) bool {
 	roots := ir.CopyRoots(key)
 	if len(roots) == 0 {
 		return false
@@ -337,9 +350,15 @@ func lruSequentialRules(c *Ctx, pfx string) {
 				}
 				ok := len(args) > 0
 				for _, a := range args {
-					if !r.pairOfKey(a, key) {
+					// (or both are read from one parameter of a literal that is handed an entry of the list at every call)
+					if !r.pairOfKey(a, key) && !r.entryParamPairC(c.P, a, key) {
 						ok = false
 					}
+				}
+				if !ok && len(args) > 0 {
+					// key and value assigned at several places: which assignment reaches the callback is a fact of the
+					// path (y_c08.go)
+					ok = r.pairOnPathsC(fn, rem, cb, args)
 				}
 				c.Decide(pfx+"1", fn, "callback receives the removed entry", cb, ok, "the delete callback is not called with the key/value that were stored under the removed key")
 			})
@@ -987,7 +1006,7 @@ func (c *Ctx) expirableWrapper(r *lruRoles, rule string) {
 func runC09(c *Ctx) {
 	mapRules(c, "C09.M")
 	r := resolveLRURoles(c)
-	mpath := "recv." + r.mutex.Name()
+	mpath := r.mutexPath
 	lv := r.locks
 	// R1 lockset
 	for _, fn := range r.bodies {
@@ -1141,7 +1160,11 @@ func runC09(c *Ctx) {
 						return true
 					}
 				}
-				return false
+				// the record is read back from the table under the registered key ("close(inflight[k])"): between the
+				// registration and this point the entry of k is the registered one - nobody registers over a present
+				// entry, only the creator deregisters, the table is replaced only by the constructor (the census
+				// obligations of this rule) - so this closes the channel the waiters of k were handed
+				return r.inflightEntryOfC(recordOf(cc.Args[0]), mu.Key)
 			}
 			c.NoFlow("C09.R2", "registered creation closes its channel", in, ir.Flow{Fn: goc, From: in, Block: isClose, Target: ir.IsExit},
 				"a creation can finish without closing its in-flight channel: waiters block forever")
